@@ -477,4 +477,23 @@ theorem cancelOutcome_between (k : Nat) (pre : List (List Call)) (blk : List Cal
     rw [e, List.drop_left' (by simp)]
   simp [cancelBetween, ht, hd]
 
+/-- **Cancellation inside an `Extract` = cancellation between two `handleFile` calls, for the engine** (class
+`CancelCfg`): when the k-th `Extract` is owed, the scan's attempts, error and visited-inode count are exactly what a
+cancellation arriving right after the j-th `handleFile` call must produce (`cancelBetween j` on the specification's
+trace), where call `j` is the one during which the k-th `Extract` runs. -/
+theorem run_cancel_between (c : Cfg) (k : Nat) (hc : CancelCfg c k) (hd : DomainLaw c.giMatch) (roots : List (Node × Faults))
+    (hk : k ≤ openedCount (mustExtract c roots)) :
+    ∃ j, 1 ≤ j ∧ j ≤ (traceScan c roots).length ∧
+      openedCount ((traceScan c roots).take (j - 1)).flatten < k ∧ k ≤ openedCount ((traceScan c roots).take j).flatten ∧
+      ((run c roots).calls, (run c roots).err, (run c roots).visited) = cancelBetween j (traceScan c roots) := by
+  obtain ⟨_, _, _, h2⟩ := run_cancel c k hc hd roots
+  obtain ⟨pre, blk, post, hT, hlt, hge, _, _, _⟩ := h2 hk
+  have ho := run_cancel_outcome c k hc hd roots
+  rw [hT] at ho ⊢
+  have e : pre ++ blk :: post = (pre ++ [blk]) ++ post := by simp
+  refine ⟨pre.length + 1, by omega, by simp, ?_, ?_, ?_⟩
+  · simpa using hlt
+  · rw [e, List.take_left' (by simp)]; simpa using hge
+  · rw [ho]; exact cancelOutcome_between k pre blk post hlt hge
+
 end Scalibr.Walk
